@@ -84,6 +84,9 @@ class NameKinds:
                 if isinstance(a0, ast.Subscript) and isinstance(a0.slice, ast.Slice) and isinstance(a0.value, ast.Call) and isinstance(a0.value.func, ast.Attribute) and a0.value.func.attr == 'split' \
                         and a0.value.args and isinstance(a0.value.args[0], ast.Constant) and a0.value.args[0].value == '::':
                     return NS
+                # *namespace_parts, short = x.split('::')  ...  '::'.join(namespace_parts)
+                if isinstance(a0, ast.Name) and self._split_part(a0.id, func) == 'ns-parts':
+                    return NS
             if isinstance(expr.func, ast.Attribute) and expr.func.attr == 'fullname':
                 return FULL
             if isinstance(expr.func, ast.Name) and expr.func.id == '_find_task_full_name':
@@ -122,6 +125,32 @@ class NameKinds:
             return self.kind(expr.value, func)
         if isinstance(expr, ast.Name):
             return self._name_kind(expr.id, func, expr)[0]
+        return None
+
+    def _split_part(self, name: str, func: FuncInfo) -> Optional[str]:
+        """'ns-parts' / 'last' if the local is the starred / the last target of `*parts, last = <x>.split('::')`"""
+        for n in self.T.own_nodes(func):
+            if isinstance(n, ast.Assign) and len(n.targets) == 1 and isinstance(n.targets[0], (ast.Tuple, ast.List)) and len(n.targets[0].elts) == 2 and isinstance(n.value, ast.Call) \
+                    and isinstance(n.value.func, ast.Attribute) and n.value.func.attr == 'split' and n.value.args and isinstance(n.value.args[0], ast.Constant) and n.value.args[0].value == '::':
+                a, b = n.targets[0].elts
+                if isinstance(a, ast.Starred) and isinstance(a.value, ast.Name) and a.value.id == name:
+                    return 'ns-parts'
+                if isinstance(a, ast.Starred) and isinstance(b, ast.Name) and b.id == name:
+                    return 'last'
+        return None
+
+    def _returned_tuple_kind(self, call: ast.Call, index: int, func: FuncInfo) -> Optional[str]:
+        """kind of element `index` of the tuple a package helper returns (`ns, short = _split_namespace(name)`)"""
+        nm = call.func.id if isinstance(call.func, ast.Name) else (call.func.attr if isinstance(call.func, ast.Attribute) else None)
+        for g in self.A.prog.functions.values():
+            if g.name == nm and g.parent is None:
+                kinds = set()
+                for r in self.T.own_nodes(g):
+                    if isinstance(r, ast.Return) and isinstance(r.value, ast.Tuple) and index < len(r.value.elts):
+                        kinds.add(self.kind(r.value.elts[index], g))
+                kinds.discard(None)
+                if len(kinds) == 1:
+                    return next(iter(kinds))
         return None
 
     def elem_kind(self, expr, func: FuncInfo) -> Optional[str]:
@@ -174,6 +203,12 @@ class NameKinds:
                         for te, ve in zip(t.elts, n.value.elts):
                             if isinstance(te, ast.Name) and te.id == name:
                                 kinds.add(self.kind(ve, f))
+                    elif isinstance(t, ast.Tuple) and isinstance(n.value, ast.Call):
+                        for i_, te in enumerate(t.elts):
+                            if isinstance(te, ast.Name) and te.id == name:
+                                kinds.add(self._returned_tuple_kind(n.value, i_, f))
+                                if self._split_part(name, f) == 'last':
+                                    kinds.add(SLUG)
             elif isinstance(n, ast.NamedExpr) and isinstance(n.target, ast.Name) and n.target.id == name:
                 kinds.add(self.kind(n.value, f))
             elif isinstance(n, ast.Call) and isinstance(n.func, ast.Attribute) and n.func.attr in ('append', 'add') and isinstance(n.func.value, ast.Name) and n.func.value.id == name and n.args:
